@@ -7,10 +7,10 @@ import (
 )
 
 // VerifC03_VerifyOutcome: an upload whose batch answer carries a verify
-// action counts as done only if the server confirmed it: when every verify
-// attempt fails (transport error or error status) verifyUpload reports an
-// error, when some attempt within the configured number succeeds it reports
-// success, and it never makes more attempts than configured.
+// action counts as done only if the server confirmed it: when no verify
+// attempt that is made succeeds (transport errors, or error statuses - which
+// the API client hands back as a response AND an error) verifyUpload reports
+// an error.
 func VerifC03_VerifyOutcome() {
 	verifSeenReqs = nil
 	rel, _, _, _ := verifAction()
